@@ -33,23 +33,27 @@ class Unsupported(Exception):
 
 
 class ByteMem:
-    """byte-addressed memory: a base z3 array plus a dictionary of bytes written at concrete addresses since the last
-    write to a symbolic address.  Functional (copy on write)."""
+    """byte-addressed memory as a stack of write layers over a base array (functional, copy on write):
 
-    __slots__ = ("base", "cw", "_arr")
+         base      z3 array (initial contents)
+         layers    older -> newer; each is  dict {concrete address: (word, byte index) | (byte, None)}   concrete stores
+                                            ("word", address expr, word)                                   a 32-byte store at a symbolic address
+                                            ("copy", dst expr, length expr, fn i -> byte)                 a copy of symbolic length
+    A read builds an if-then-else chain over the layers (newest wins) instead of nesting array lambdas: the formulas stay
+    in the bit-vector fragment plus selects on the base array, which the solvers decide far more readily."""
 
-    def __init__(self, base, cw=None):
+    __slots__ = ("base", "layers", "cw", "_arr")
+
+    def __init__(self, base, cw=None, layers=()):
         self.base = base
+        self.layers = tuple(layers)
         self.cw = cw if cw is not None else {}
         self._arr = None
 
-    def array(self):
-        if self._arr is None:
-            a = self.base
-            for addr in sorted(self.cw):
-                a = z3.Store(a, BV(addr), self._byte(self.cw[addr]))
-            self._arr = a
-        return self._arr
+    # -- helpers
+    def _push(self, layer):
+        ls = self.layers + ((dict(self.cw),) if self.cw else ())
+        return ByteMem(self.base, {}, ls + (layer,))
 
     @staticmethod
     def _byte(entry):
@@ -58,13 +62,44 @@ class ByteMem:
             return w
         return z3.Extract(255 - 8 * i, 248 - 8 * i, w)
 
+    @staticmethod
+    def _word_byte(word, off):
+        """byte number `off` (a z3 expr, 0..31) of a 32-byte word"""
+        return z3.Extract(7, 0, z3.LShR(word, (BV(31) - off) * BV(8)))
+
+    def array(self):
+        if self._arr is None:
+            if not self.layers and not self.cw:
+                self._arr = self.base
+            else:
+                k = z3.BitVec("k!mem", 256)
+                self._arr = z3.Lambda([k], self.load8(k))
+        return self._arr
+
     def load8(self, addr):
         a = conc(addr)
-        if a is not None:
-            if a in self.cw:
-                return self._byte(self.cw[a])
-            return z3.Select(self.base, BV(a))
-        return z3.Select(self.array(), addr)
+        if a is not None and a in self.cw:
+            return self._byte(self.cw[a])
+        addr = bv(addr)
+        val = z3.Select(self.base, addr)
+        batches = list(self.layers) + ([self.cw] if self.cw else [])
+        for layer in batches:
+            if isinstance(layer, dict):
+                if a is not None:
+                    if a in layer:
+                        val = self._byte(layer[a])
+                else:
+                    for c, ent in layer.items():
+                        val = z3.If(addr == BV(c), self._byte(ent), val)
+            elif layer[0] == "word":
+                _, at, word = layer
+                off = addr - at
+                val = z3.If(z3.ULT(off, BV(32)), self._word_byte(word, off), val)
+            else:
+                _, dst, length, fn = layer
+                off = addr - dst
+                val = z3.If(z3.And(z3.UGE(addr, dst), z3.ULT(off, length)), fn(off), val)
+        return z3.simplify(val) if a is not None else val
 
     def load(self, addr):
         a = conc(addr)
@@ -73,8 +108,8 @@ class ByteMem:
             if ents[0] is not None and ents[0][1] == 0 and all(e is not None and e[0] is ents[0][0] and e[1] == i for i, e in enumerate(ents)):
                 return ents[0][0]
             return z3.simplify(z3.Concat(*[self.load8(BV(a + i)) for i in range(32)]))
-        arr = self.array()
-        return z3.Concat(*[z3.Select(arr, addr + BV(i)) for i in range(32)])
+        addr = bv(addr)
+        return z3.Concat(*[self.load8(addr + BV(i)) for i in range(32)])
 
     def store(self, addr, word):
         word = bv(word)
@@ -83,40 +118,28 @@ class ByteMem:
             cw = dict(self.cw)
             for i in range(32):
                 cw[a + i] = (word, i)
-            return ByteMem(self.base, cw)
-        arr = self.array()
-        for i in range(32):
-            arr = z3.Store(arr, addr + BV(i), z3.Extract(255 - 8 * i, 248 - 8 * i, word))
-        return ByteMem(arr)
+            return ByteMem(self.base, cw, self.layers)
+        return self._push(("word", bv(addr), word))
 
     def store8(self, addr, byte):
         a = conc(addr)
         if a is not None:
             cw = dict(self.cw)
             cw[a] = (byte, None)
-            return ByteMem(self.base, cw)
-        return ByteMem(z3.Store(self.array(), addr, byte))
+            return ByteMem(self.base, cw, self.layers)
+        return self._push(("copy", bv(addr), BV(1), lambda i, byte=byte: byte))
 
     def copy_from(self, dst, src_fn, length, maxlen=None):
-        """mem[dst+i] = src_fn(i) for i < length.  length concrete -> unrolled; symbolic -> lambda-array update
-        (needs maxlen only for documentation; the lambda form is exact)."""
+        """mem[dst+i] = src_fn(i) for i < length.  concrete length and destination -> unrolled into concrete stores;
+        otherwise one copy layer (exact)."""
         n = conc(length)
-        if n is not None and n <= 4096:
-            m = self
-            d = conc(dst)
-            if d is not None:
-                cw = dict(self.cw)
-                for i in range(n):
-                    cw[d + i] = (src_fn(BV(i)), None)
-                return ByteMem(self.base, cw)
-            arr = self.array()
+        d = conc(dst)
+        if n is not None and n <= 4096 and d is not None:
+            cw = dict(self.cw)
             for i in range(n):
-                arr = z3.Store(arr, dst + BV(i), src_fn(BV(i)))
-            return ByteMem(arr)
-        k = z3.BitVec("k!", 256)
-        old = self.array()
-        inside = z3.And(z3.UGE(k, dst), z3.ULT(k - dst, length))
-        return ByteMem(z3.Lambda([k], z3.If(inside, src_fn(k - dst), z3.Select(old, k))))
+                cw[d + i] = (src_fn(BV(i)), None)
+            return ByteMem(self.base, cw, self.layers)
+        return self._push(("copy", bv(dst), bv(length), src_fn))
 
 
 class World:
